@@ -788,3 +788,36 @@ def illformed(rng):
     i = L.index("ret")
     L[i] = "j f"
     return "\n".join(L) + "\n", "functionwithoutreturn", "f", [L.index("f:"), L.index("f:") + 1]
+
+
+def fold_prog(rng):
+    """straight-line arithmetic on known constants (boundary values, both signs) and on entry-relative values through every
+    register-register / register-immediate operator and the arithmetic pseudo-instructions: everything the value analysis folds"""
+    vals = [0, 1, -1, 2, 5, -5, 7, 31, 32, 33, 255, -256, 2047, -2048, 0x7fffffff, -0x80000000, 0x12345678, -0x12345678, 65535, 65536]
+    regs = ["t0", "t1", "t2", "a1", "a2", "a3", "t3", "t4"]
+    L = ["main:"]
+    known = []
+    for r in rng.sample(regs, 4):
+        L.append("li %s, %d" % (r, rng.choice(vals)))
+        known.append(r)
+    for _ in range(rng.randrange(4, 14)):
+        d = rng.choice(regs)
+        k = rng.random()
+        if k < 0.45:
+            L.append("%s %s, %s, %s" % (rng.choice(asm_ops_r()), d, rng.choice(known + ["zero", "sp", "s0"]), rng.choice(known + ["zero"])))
+        elif k < 0.8:
+            op = rng.choice(["addi", "andi", "ori", "xori", "slti", "sltiu", "slli", "srli", "srai"])
+            imm = rng.choice([0, 1, 31]) if op in ("slli", "srli", "srai") else rng.choice([0, 1, -1, 7, -7, 2047, -2048])
+            L.append("%s %s, %s, %d" % (op, d, rng.choice(known + ["sp", "s1"]), imm))
+        else:
+            L.append("%s %s, %s" % (rng.choice(["mv", "neg", "not", "seqz", "snez", "sltz", "sgtz"]), d, rng.choice(known)))
+        if d not in known:
+            known.append(d)
+    for r in known:
+        L.append("add a0, a0, %s" % r)
+    L += ["li a7, 1", "ecall", "li a7, 10", "ecall"]
+    return "\n".join(L) + "\n"
+
+
+def asm_ops_r():
+    return ["add", "sub", "and", "or", "xor", "sll", "srl", "sra", "slt", "sltu", "mul", "mulh", "mulhsu", "mulhu", "div", "divu", "rem", "remu"]
